@@ -1,6 +1,6 @@
 """C13 - every object is released exactly once and sessions shut down cleanly.
 
-All call histories of the grammar  (open(missing)|open(unwritable))^0..3 , [open(valid,in) | open(out)] , [open again] ,
+All call histories of the grammar  (open(missing)|open(unwritable))^0..3 , [open(valid,in) | open(out)] , [open again, same or other direction] ,
 body , destroy  with body over {read, close} (read sessions, reads also after close and beyond the end) resp.
 write^a close^b (write sessions), total length <= 12, on input files of {0,1,3,11,50} objects (11 and 50 exceed the queue
 capacity): each under the default schedule and the 6 static priority orders, the abandonment histories (close / destroy
@@ -39,7 +39,7 @@ def read_histories(quick):
     bodies = read_bodies(6)
     for n in ns:
         for fp in FAILED:
-            for oa in ("", "A"):
+            for oa in ("", "A", "B"):
                 if quick and fp not in ("", "M.U.M") and oa:
                     continue
                 for b in bodies:
@@ -59,7 +59,7 @@ def read_histories(quick):
 def write_histories():
     out = []
     for fp in FAILED:
-        for oa in ("", "A"):
+        for oa in ("", "A", "B"):
             for a in range(0, 7):
                 for b in range(0, 4):
                     out.append((hist(fp, "O", oa, ".".join("W" * a), ".".join("C" * b), "D"), 0, b == 0 and a > 0))
